@@ -217,6 +217,9 @@ def sample_kwargs(cfg: dict, rng, **extra):
     if cfg["sampler"] in ("minipcn_smc", "smc"):
         kw.update(min_step=cfg["min_step"], max_n_steps=cfg["max_n_steps"], rng=rng,
                   sampler_kwargs={"n_steps": cfg["kernel_steps"]})
+        if cfg.get("final_kernel_steps") is not None:
+            # a different number of kernel steps for the final enlargement (a documented key of sampler_kwargs)
+            kw["sampler_kwargs"]["n_final_steps"] = cfg["final_kernel_steps"]
     else:
         kw.update(sampler_kwargs={"nsteps": cfg["kernel_steps"], "progress": False})
         if cfg.get("emcee_moves"):
